@@ -841,7 +841,7 @@ fn history_json(cfg: &Cfg, ops: &[Op]) -> Value {
 }
 
 pub fn run(ctx: &Ctx, which: Which) {
-    let n_hist = ctx.tier.pick(2_400usize, 120_000);
+    let n_hist = ctx.tier.pick(6_400usize, 200_000);
     let max_len = ctx.tier.pick(40usize, 80);
     ctx.set_rule(&format!(
         "{} histories of up to {} operations (Push of a pre-proved library proof, EvictSettled(set), EvictOlderThan(d), Snapshot(key), RemoveBucket(key), Advance(d), Stats) over ProofPool instances with inner_num_leaves in {{1,2}}, batch 1..3, max_proofs batch..batch+3, max_buckets 1..3, max_verifies 1..5, window 10..60 virtual seconds; \
